@@ -529,6 +529,7 @@ class HTTPWARCRecorderSession(BaseWARCRecorderSession):
         self._request = None
         self._request_record = None
         self._response_record = None
+        self._response_payload_offset = None
         self._response_temp_file = self._new_temp_file(hint='warcsesrsp')
 
     def close(self):
@@ -582,11 +583,20 @@ class HTTPWARCRecorderSession(BaseWARCRecorderSession):
             WARCRecord.WARC_RECORD_ID]
         record.block_file = self._response_temp_file
 
+        # Everything received so far is the header block as it was on the
+        # wire. The payload starts right after it.
+        self._response_payload_offset = self._response_temp_file.tell()
+
     def response_data(self, data: bytes):
         self._response_temp_file.write(data)
 
     def end_response(self, response: HTTPResponse):
-        payload_offset = len(response.to_bytes())
+        # The header block as received may differ in length from our own
+        # serialisation of it (line endings, spacing, folding, interim
+        # responses). Fall back to the latter only if no data was seen
+        # before begin_response.
+        payload_offset = self._response_payload_offset \
+            or len(response.to_bytes())
 
         self._response_record.block_file.seek(0)
         self._recorder.set_length_and_maybe_checksums(
